@@ -1,2 +1,163 @@
-(* handshake-engine handlers are registered here (E3); filled in by Driver_hs when the handshake model exists *)
-let register (_ : (string * (string array -> string)) list ref) = ()
+(* driver_hs.ml — handshake engine (E3) and handshake-related pure cases on the extracted model *)
+open Model
+type string = Stdlib.String.t
+open Dutil
+
+(* headers: "name=value;name=value" with hex fields, "-" for none *)
+let headers_of (s : string) : headers =
+  if s = "-" || s = "" then [] else
+    List.map (fun nv -> match split '=' nv with
+        | [n; v] -> (bytes_of_hex n, bytes_of_hex v)
+        | _ -> failwith ("bad header " ^ nv)) (split ';' s)
+let headers_s (hs : headers) : string =
+  match hs with [] -> "-" | _ ->
+    Stdlib.String.concat ";" (List.map (fun (n, v) -> hex_of_bytes n ^ "=" ^ hex_of_bytes v) hs)
+
+let hs_proto_s = function
+  | WrongHttpMethod -> "WrongHttpMethod" | WrongHttpVersion -> "WrongHttpVersion"
+  | MissingConnectionUpgradeHeader -> "MissingConnectionUpgradeHeader"
+  | MissingUpgradeWebSocketHeader -> "MissingUpgradeWebSocketHeader"
+  | MissingSecWebSocketVersionHeader -> "MissingSecWebSocketVersionHeader"
+  | MissingSecWebSocketKey -> "MissingSecWebSocketKey"
+  | SecWebSocketAcceptKeyMismatch -> "SecWebSocketAcceptKeyMismatch"
+  | SubNoSubProtocol -> "SubProtocol:NoSubProtocol"
+  | SubServerSentNoneRequested -> "SubProtocol:ServerSentSubProtocolNoneRequested"
+  | SubInvalidSubProtocol -> "SubProtocol:InvalidSubProtocol"
+  | JunkAfterRequest -> "JunkAfterRequest" | CustomResponseSuccessful -> "CustomResponseSuccessful"
+  | InvalidHeader n -> "InvalidHeader:" ^ hex_of_bytes n
+  | HandshakeIncomplete -> "HandshakeIncomplete"
+let hs_error_s = function
+  | HEProto p -> "err:proto:" ^ hs_proto_s p
+  | HEHttparse -> "err:proto:HttparseError" | HETooManyHeaders -> "err:cap:headers"
+  | HEHttpFormat -> "err:httpformat" | HEAttack -> "err:attack"
+  | HEIo k -> "err:io:" ^ io_kind_s k
+  | HEHttp (s, b) -> "err:http:" ^ string_of_n s ^ ":" ^ (match b with None -> "none" | Some b -> hex_of_bytes b)
+  | HEUtf8 -> "err:utf8" | HEUrlNoPath -> "err:url:NoPathOrQuery" | HEUrlScheme -> "err:url:UnsupportedUrlScheme"
+  | HEUrlNoHost -> "err:url:NoHostName" | HEUrlEmptyHost -> "err:url:EmptyHostName"
+
+(* oracle table: "len=outcome,len=outcome"; outcome P | E | M | C:n:method:version:path:fmtok:hdrs (request)
+   or C:n:version:code:fmtok:hdrs (response) *)
+let table_of (s : string) : (int * string list) list =
+  if s = "-" || s = "" then [] else
+    List.map (fun e -> match split '=' e with
+        | l :: rest -> (int_of_string l, split ':' (Stdlib.String.concat "=" rest))
+        | _ -> failwith "table") (split ',' s)
+let rec list_len = function [] -> 0 | _ :: r -> 1 + list_len r
+let oracle_req_of tbl (buf : bytes) : raw_req oracle_out =
+  match List.assoc_opt (list_len buf) tbl with
+  | None | Some ["P"] -> OPartial
+  | Some ["E"] -> OErrHttparse
+  | Some ["M"] -> OErrTooMany
+  | Some ["C"; n; m; v; p; f; hs] ->
+    OComplete (n_of_string n, { rq_method = bytes_of_hex m; rq_version = n_of_string v; rq_path = bytes_of_hex p;
+                                rq_fmt_ok = (f = "1"); rq_headers = headers_of hs })
+  | _ -> failwith "oracle_req"
+let oracle_resp_of tbl (buf : bytes) : raw_resp oracle_out =
+  match List.assoc_opt (list_len buf) tbl with
+  | None | Some ["P"] -> OPartial
+  | Some ["E"] -> OErrHttparse
+  | Some ["M"] -> OErrTooMany
+  | Some ["C"; n; v; c; f; hs] ->
+    OComplete (n_of_string n, { rs_version = n_of_string v; rs_code = n_of_string c; rs_fmt_ok = (f = "1");
+                                rs_headers = headers_of hs })
+  | _ -> failwith "oracle_resp"
+
+let callback_of (s : string) : callback =
+  match split ':' s with
+  | ["none"] -> CbNone
+  | ["add"; hs] -> CbAdd (headers_of hs)
+  | ["rej"; st; body; hs] -> CbReject (n_of_string st, headers_of hs, (if body = "none" then None else Some (bytes_of_hex body)))
+  | _ -> failwith "callback"
+
+let hs_event_s = function
+  | HsInterrupted -> Some "I"
+  | HsEv e -> event_s e
+
+let config_of f i =
+  { cfg_write_buffer_size = n_of_string f.(i); cfg_max_write_buffer_size = (if f.(i+1) = "inf" then u64_max else n_of_string f.(i+1));
+    cfg_max_message_size = opt_n f.(i+2); cfg_max_frame_size = opt_n f.(i+3); cfg_accept_unmasked = (f.(i+4) = "1") }
+
+(* after the handshake: run socket ops on the resulting context *)
+let finish (res, w, hlog) cfg seed ops : string =
+  let buf = Buffer.create 256 in
+  let outcome = match res with
+    | HsDone _ -> "ok" | HsFail e -> hs_error_s e | HsPanic s -> "panic:" ^ string_of_n s
+    | HsBlocked -> "blocked" | HsOutOfFuel -> "outoffuel" in
+  Buffer.add_string buf outcome;
+  List.iter (fun e -> match hs_event_s e with Some s -> Buffer.add_char buf ' '; Buffer.add_string buf s | None -> ()) hlog;
+  (match res with
+   | HsDone (role, tail) ->
+     (match ctx_new role tail cfg with
+      | None -> Buffer.add_string buf " | panic:config"
+      | Some x ->
+        let keys = keys_of_seed seed (2 * List.length ops + 4) in
+        let w0 = { w_rds = w.w_rds; w_wrs = w.w_wrs; w_fls = w.w_fls; w_keys = keys; w_log = [] } in
+        let ((results, _), w') = run_ops x ops w0 in
+        let pos = ref 0 and rest = ref w'.w_log in
+        List.iter (fun (r, upto) ->
+            let upto = int_of_n upto in
+            let evs = take_list (upto - !pos) !rest in
+            rest := drop_list (upto - !pos) !rest; pos := upto;
+            Buffer.add_string buf " | ";
+            Buffer.add_string buf (op_result_s r);
+            List.iter (fun e -> match event_s e with Some s -> Buffer.add_char buf ' '; Buffer.add_string buf s | None -> ()) evs)
+          results)
+   | _ -> ());
+  Buffer.contents buf
+
+let world_of rds wrs fls : world =
+  { w_rds = List.map rd_of_string (list_of_field rds); w_wrs = List.map wr_of_string (list_of_field wrs);
+    w_fls = List.map fl_of_string (list_of_field fls); w_keys = []; w_log = [] }
+
+(* HS id cb wbs max mms mfs au rbs seed ops rds wrs fls table *)
+let run_hs_server (f : string array) : string =
+  let cb = callback_of f.(2) in
+  let cfg = config_of f 3 in
+  let seed = int_of_string f.(9) in
+  let ops = List.map op_of_string (list_of_field f.(10)) in
+  let w = world_of f.(11) f.(12) f.(13) in
+  let tbl = table_of f.(14) in
+  let ((res, w'), hlog) = server_handshake (oracle_req_of tbl) (oracle_resp_of []) cb w in
+  finish (res, w', hlog) cfg seed ops
+
+(* HCM id scheme:path hdrs wbs max mms mfs au rbs seed ops rds wrs fls table *)
+let run_hs_client (f : string array) : string =
+  let (scheme_ok, pth) = match split ':' f.(2) with [s; p] -> (s = "1", p) | _ -> failwith "scheme:path" in
+  let path = if pth = "none" then None else Some (bytes_of_hex pth) in
+  let hs = headers_of f.(3) in
+  let cfg = config_of f 4 in
+  let seed = int_of_string f.(10) in
+  let ops = List.map op_of_string (list_of_field f.(11)) in
+  let w = world_of f.(12) f.(13) f.(14) in
+  let tbl = table_of f.(15) in
+  let ((res, w'), hlog) = client_handshake (oracle_req_of []) (oracle_resp_of tbl) scheme_ok path hs w in
+  finish (res, w', hlog) cfg seed ops
+
+let hres_s okf = function HOk a -> okf a | HErr e -> hs_error_s e
+
+(* AK id keyhex *)
+let run_accept_key f = hex_of_bytes (derive_accept_key (bytes_of_hex f.(2)))
+(* URI id authority|none path key *)
+let run_uri f =
+  let auth = if f.(2) = "none" then None else Some (bytes_of_hex f.(2)) in
+  hres_s (fun hs -> "ok:" ^ f.(3) ^ ":" ^ headers_s hs) (into_client_request auth (bytes_of_hex f.(4)))
+(* SD id method_is_get version_ge_11 hdrs *)
+let run_server_decide f =
+  hres_s (fun hs -> "ok:101:" ^ headers_s hs) (create_parts (f.(2) = "1") (f.(3) = "1") (headers_of f.(4)))
+(* GR id path|none hdrs *)
+let run_generate_request f =
+  let path = if f.(2) = "none" then None else Some (bytes_of_hex f.(2)) in
+  hres_s (fun (req, key) -> "ok:" ^ hex_of_bytes req ^ ":" ^ hex_of_bytes key) (generate_request path (headers_of f.(3)))
+(* AC id sizes(comma separated): how many reads pass the attack check *)
+let run_attack f =
+  let sizes = List.map int_of_string (list_of_field f.(2)) in
+  let rec go p b i = function
+    | [] -> "pass:" ^ string_of_int i
+    | s :: r -> (match attack_check p b (n_of_int s) with
+        | None -> "attack:" ^ string_of_int i
+        | Some (p', b') -> go p' b' (i + 1) r) in
+  go N0 N0 0 sizes
+
+let handlers : (string * (string array -> string)) list = [
+  ("HS", run_hs_server); ("HCM", run_hs_client); ("AK", run_accept_key); ("URI", run_uri);
+  ("SD", run_server_decide); ("GR", run_generate_request); ("AC", run_attack) ]
